@@ -2,6 +2,7 @@ package rules
 
 import (
 	"fmt"
+	"go/token"
 	"reflect"
 	"strings"
 
@@ -392,4 +393,62 @@ func ruleKeywordNames(c *Ctx, rule string) {
 		seen[name] = f.Name()
 	}
 	c.R.Floor(rule, "fields of Schema with a JSON name", n, 50)
+}
+
+// A branch taken for one kind of the instance (`case reflect.Struct:`) that no instance can reach because an outer
+// test has already excluded that kind is a sign that the outer test lost a kind: the arm that reports "cannot apply
+// defaults to a struct" is dead if the surrounding test admits maps only, and struct values are then passed over in
+// silence.
+func init() {
+	for _, pid := range []string{"C15", "C08"} {
+		pid := pid
+		Properties[pid].Rules = append(Properties[pid].Rules, Rule{pid + "/no-dead-kind-arm", func(c *Ctx) { ruleNoDeadKindArm(c, pid+"/no-dead-kind-arm") }})
+	}
+}
+
+func ruleNoDeadKindArm(c *Ctx, rule string) {
+	n := 0
+	seen := map[*ssa.Function]bool{}
+	for _, cn := range []string{"DEF", "EV", "EQ"} {
+		for _, fn := range c.Closure(rule, cn).Sorted() {
+			if seen[fn] || fn.Parent() != nil || !c.P.InPkg(fn) || c.transparent(fn) {
+				continue
+			}
+			seen[fn] = true
+			k := 0
+			core.EachInstr(fn, func(i ssa.Instruction) {
+				ifi, ok := i.(*ssa.If)
+				if !ok {
+					return
+				}
+				bo, ok := ifi.Cond.(*ssa.BinOp)
+				if !ok || bo.Op != token.EQL {
+					return
+				}
+				kc, ok := bo.X.(*ssa.Call)
+				if !ok || core.CalleeKey(&kc.Call) != "reflect.Value.Kind" {
+					return
+				}
+				if _, isConst := bo.Y.(*ssa.Const); !isConst {
+					return
+				}
+				arm := ifi.Block().Succs[0]
+				if len(arm.Preds) != 1 || len(arm.Instrs) == 0 {
+					return
+				}
+				// only arms that refuse the kind (an error return): harmless dead arms exist (the Interface and Pointer
+				// arms of the equality function after its stripping loops)
+				if !blockReturnsErrorLocal(arm) {
+					return
+				}
+				n++
+				k++
+				ks, _ := c.kindsAt(fn, kc.Call.Args[0], arm.Instrs[0])
+				before, _ := c.kindsAt(fn, kc.Call.Args[0], ifi)
+				c.R.Check(ks != 0, rule, fmt.Sprintf("%s:kind-arm#%d", core.FuncName(fn), k), c.pos(ifi), "the refusal can be reached for the kind it tests",
+					fmt.Sprintf("the branch for instance kind %s cannot be reached: an enclosing test admits only %s, so values of that kind never get here and whatever the arm does for them (an error, a special case) silently does not happen", bo.Y, before))
+			})
+		}
+	}
+	c.R.Floor(rule, "kind arms that refuse the instance with an error", n, 1)
 }
